@@ -53,6 +53,10 @@ func (jmErr) MarshalJSON() ([]byte, error) { return nil, errors.New("no") }
 
 type cyc struct{ P *cyc }
 
+type jmPanic struct{}
+
+func (jmPanic) MarshalJSON() ([]byte, error) { panic("marshaler panics") }
+
 // c17coerce is what a JSON string can hold: invalid UTF-8 bytes become U+FFFD.
 func c17coerce(s string) string { return ivalid.Encode(ivalid.Decode(s)) }
 
@@ -154,7 +158,14 @@ func c17NameOK(n string) bool {
 
 func c17Judge(site int, d c17datum) (string, string) {
 	s := scriptNameSites[site]
-	sc, err := s.f(d.v)
+	var sc interface{ String() string }
+	var err error
+	if p, msg := core.Try(func() {
+		x, e := s.f(d.v)
+		sc, err = x, e
+	}); p {
+		return "panic", "the call panicked: " + msg
+	}
 	out := sc.String()
 	if err != nil {
 		if out != "" {
@@ -202,9 +213,11 @@ func checkC17(r *core.Run) {
 	data := c17Data(sl)
 	eval := func(site int, d c17datum) {
 		atomic.AddInt64(&evals, 1)
-		if _, err := scriptNameSites[site].f(d.v); err == nil {
-			atomic.AddInt64(&succ, 1)
-		}
+		core.Try(func() {
+			if _, err := scriptNameSites[site].f(d.v); err == nil {
+				atomic.AddInt64(&succ, 1)
+			}
+		})
 		if cl, what := c17Judge(site, d); cl != "" {
 			r.Witness(cl, "", scriptNameSites[site].name+"\x00"+d.desc, fmt.Sprintf("ScriptFromDataAndConstant(%s, %s, %s): %s", core.Q(scriptNameSites[site].name), d.desc, core.Q(scriptNameSites[site].script), what),
 				map[string]interface{}{"Site": site, "Data": d.desc})
@@ -235,6 +248,39 @@ func checkC17(r *core.Run) {
 		}
 	})
 
+	// hidden state: a call whose data makes encoding panic (recovered by the caller) or fail must not influence the next call
+	var nseq int64
+	for _, pre := range []interface{}{jmPanic{}, make(chan int), jm("<"), map[string]interface{}{"a": jmPanic{}}, []interface{}{"x", jmPanic{}}} {
+		for i, d := range data {
+			if i%7 != 0 && i > 60 {
+				continue
+			}
+			for _, g := range good {
+				core.Try(func() { scriptNameSites[g].f(pre) })
+				nseq++
+				atomic.AddInt64(&evals, 1)
+				if cl, what := c17Judge(g, d); cl != "" {
+					r.Witness(cl, "after-failed-call", scriptNameSites[g].name+"\x00"+d.desc, fmt.Sprintf("after a call with %T that panicked or failed, ScriptFromDataAndConstant(%s, %s): %s", pre, core.Q(scriptNameSites[g].name), d.desc, what), map[string]interface{}{"Site": g, "Data": d.desc})
+				}
+			}
+		}
+	}
+	r.Set("layer_after_failed_call", nseq)
+	// long strings (every length 0..300)
+	var nlong int64
+	for _, unit := range []string{"a", "\u00e9", "<", "\u2028", "\xff"} {
+		pad := ""
+		for k := 0; k <= 300; k++ {
+			for _, core2 := range []string{"", "\u2028", "</script>", "\u2029x", "&"} {
+				for _, v := range []string{pad + core2, core2 + pad} {
+					eval(good[0], c17datum{"string:" + core.Q(v), v, true, c17coerce(v)})
+					nlong++
+				}
+			}
+			pad += unit
+		}
+	}
+	r.Set("layer_long", nlong)
 	r.Set("layer_data", fmt.Sprintf("%d data values (strings length<=%d over 18 symbols, composites with <=2 members, marshalers, raw messages, unencodable values) x %d valid name call sites", len(data), sl, len(good)))
 	r.Set("layer_names", fmt.Sprintf("%d constant name call sites (all strings length<=3 over 8 symbols + extras) x %d data values", len(scriptNameSites), len(few)))
 	r.Set("evaluations", evals)
